@@ -244,9 +244,15 @@ func DistMatrix(al align.Alignment, weights []float64, model DistModel, range1Mi
 		return
 	}
 
+	// Undefined distances are replaced by twice the largest defined distance of the matrix,
+	// unless there is none (or it is 0): they then stay undefined
+	substitute := 2 * max
+	if !(max > 0) {
+		substitute = math.Inf(1)
+	}
 	for _, sp := range uncompute {
-		outmatrix[sp.i][sp.j] = 2 * max
-		outmatrix[sp.j][sp.i] = 2 * max
+		outmatrix[sp.i][sp.j] = substitute
+		outmatrix[sp.j][sp.i] = substitute
 	}
 
 	return
@@ -379,6 +385,9 @@ func countDiffsWithInternalGaps(seq1, seq2 []uint8, selectedSites []bool, weight
 	diffweight := 0.0
 	w := 1.0
 	for i := 0; i < len(seq1); i++ {
+		if !selectedSites[i] {
+			continue
+		}
 		w = 1.0
 		diff = 0.0
 		if weights != nil {
@@ -453,8 +462,9 @@ func probaNt(sequenceCodes [][]uint8, selectedSites []bool, weights []float64) (
 					for _, n := range id1 {
 						pi[ntByteToId[n]] += w / float64(len(id1))
 					}
+					// only nucleotides are counted: the frequencies sum to 1
+					total += w
 				}
-				total += w
 			}
 		}
 	}
